@@ -1,5 +1,6 @@
 import MpgsModel.Model.Server
 import MpgsModel.Props.C02
+import MpgsModel.Lemmas.RoleOn
 /-!
 # C10 — Server handler lifecycle: connect once, then messages, then disconnect once
 
@@ -100,13 +101,12 @@ theorem C10_item_events (sz : Sizes) (C : Crypto) (s : Srv) (t : Int) (it : Item
           apply Classical.byContradiction; intro x; exact hty x
         split at he
         · rename_i hprom
-          have hp : Event.promoted ∈ (recvDatagram C (serverRole it.H (tokFor s it) (some ent.conn.token)) ent.conn t it.hdr it.d).2.1 := by
-            simpa using hprom
-          have key : ∀ e', e' ∈ [SEvent.connect ent.id it.addr (actOn sz (recvDatagram C (serverRole it.H (tokFor s it)
-                (some ent.conn.token)) ent.conn t it.hdr it.d).1 (nextAct acts).1).token] ++
+          have hp : Event.promoted ∈ (recvDatagram C (serverRole it.H (tokFor s it) (some ent.conn.token)) ent.conn t it.hdr it.d).2.1 :=
+            recvDatagram_roleOn C it.H _ _ _ _ t _ _ (by simpa using hprom)
+          have key : ∀ (x : Nat) (e' : SEvent), e' ∈ [SEvent.connect ent.id it.addr x] ++
               (if (nextAct acts).1.raises = true then [SEvent.contained "connect"] else []) →
               (∃ tok, e' = SEvent.connect ent.id it.addr tok) ∨ ∃ w, e' = SEvent.contained w := by
-            intro e' he'
+            intro x e' he'
             simp only [List.cons_append, List.nil_append, List.mem_cons] at he'
             rcases he' with h | h
             · exact Or.inl ⟨_, h⟩
@@ -116,11 +116,11 @@ theorem C10_item_events (sz : Sizes) (C : Crypto) (s : Srv) (t : Int) (it : Item
           split at he
           · rw [List.mem_append] at he
             rcases he with he | he
-            · rcases key e he with ⟨tok, h⟩ | h
+            · rcases key _ e he with ⟨tok, h⟩ | h
               · exact Or.inr (Or.inl ⟨ent, tok, rfl, rfl, hty', h, hp⟩)
               · exact Or.inr (Or.inr h)
             · simp only [List.mem_singleton] at he; exact Or.inr (Or.inr ⟨_, he⟩)
-          · rcases key e he with ⟨tok, h⟩ | h
+          · rcases key _ e he with ⟨tok, h⟩ | h
             · exact Or.inr (Or.inl ⟨ent, tok, rfl, rfl, hty', h, hp⟩)
             · exact Or.inr (Or.inr h)
         · split at he
